@@ -111,6 +111,10 @@ pub fn footers() -> Vec<Option<String>> {
         // 6-bit groups 62 and 63 at several alignments: the base64url symbols '-' and '_' (where the URL-safe
         // and the standard alphabet differ)
         Some("xx?xx>xx~ \u{00ff}\u{00fb}\u{00ef}\u{00be}".into()),
+        // the replacement character (what a lossy UTF-8 decode produces) next to ordinary text
+        Some("x\u{fffd}y\u{fffd}".into()),
+        // longer than any fixed 4 / 8 KiB scratch buffer, also after base64 expansion
+        Some("L".repeat(9000)),
     ]
 }
 
@@ -133,6 +137,8 @@ pub fn assertions() -> Vec<Option<String>> {
         Some("\u{00e4}ss\u{00e9}rt\u{1f642}-implicit-\u{4e2d}\u{6587}".into()),
         Some("{\"kid\":\"zVhMiPBP9fRf2snEcT7gFTioeA9COcNy9DfgL1W60haN\"}".into()),
         Some("Q".repeat(1024)),
+        Some("\u{fffd}-assertion-\u{fffd}".into()),
+        Some("R".repeat(9000)),
     ]
 }
 
@@ -152,7 +158,7 @@ pub fn hostile_texts() -> Vec<String> {
     [
         " ", "\n", "\r\n", "\t x \t", " x", "x ", "x\n", "\u{a0}x\u{a0}", "\u{3000}x", "\u{feff}x", "x\u{feff}", "\0", "x\0", "\0x", "a\u{1}b\u{7f}",
         "\u{200b}x", "x\u{200d}", "\u{202e}abc", "\u{e9}", "e\u{301}", "\u{212b}", "\u{c5}", "\u{130}", "\u{df}", "SS", "ss", "\u{1c5}", "\u{ff21}\u{ff22}", "AB", "ab",
-        "'\"\\", "%00", "%2E", "a+b/c=", "a b", "a%20b", "../x", "x/../y", "null", "true", "0", "-0", "1e3", "[]", "{}", "\"x\"", "\\u0041", "A",
+        "\u{fffd}", "a\u{fffd}b", "'\"\\", "%00", "%2E", "a+b/c=", "a b", "a%20b", "../x", "x/../y", "null", "true", "0", "-0", "1e3", "[]", "{}", "\"x\"", "\\u0041", "A",
     ]
     .iter()
     .map(|s| s.to_string())
